@@ -5,7 +5,7 @@ import types
 import numpy as np
 from ..report import Check
 from ..kernels.base import run_kernel
-from ..kernels import c11_registry
+from ..kernels import c11_registry, c11_names
 from .. import harness
 
 
@@ -264,7 +264,7 @@ def run(tier, seed):
     import einx._src.frontend.backend as B
 
     chk = Check("C11", tier, seed, "other")
-    for k in c11_registry.KERNELS:
+    for k in c11_registry.KERNELS + c11_names.KERNELS:
         chk.add_kernel(run_kernel(k, tier))
     rng = random.Random(seed)
     jobs = []
